@@ -36,7 +36,10 @@ EXPLANATION = (
     'R8 every character that write() puts between the quoted paths of a build line is escaped by the pattern ninja_quote uses for build lines or rejected by it. '
     'R9 in the functions that feed test prerequisites and dependency paths no isinstance arm for a subclass is shadowed by an earlier base-class arm that leaves; '
     'R10 a pool named by a rule (`pool = X`) is declared (`pool X`) under a threshold condition on the same quantity that the naming condition implies. '
-    'Not decided (declared limits): agreement between the condition under which a precompiled header is listed as a dependency and the condition under which its '
+    'R11 every call site of a method that receives two distinct directories of the environment passes them in the same roles as the other call sites (source / build directory swapped); '
+    'R12 a per-target file name that exactly one function turns into the output of a statement is handed out elsewhere only for target classes for which that function is called. '
+    'Not decided (declared limits): which of two in-scope objects a filter records (BuildTarget.extract_objects appending the parent target instead of the requested source is a '
+    'value-level choice);  agreement between the condition under which a precompiled header is listed as a dependency and the condition under which its '
     'statement is generated (needs relating computed file names across functions);  equality of output paths modulo normalisation (`x/o` vs `./x/o`: the registry compares the strings it is given); files the backend '
     'creates itself at configure time (library alias symlinks) against statement outputs; arithmetic agreement of the unity-file count in _determine_ext_objs with the '
     'chunking loop of generate_unity_files; path identity tests in the legacy Fortran scanner (samefile vs ==). '
@@ -2670,6 +2673,302 @@ def r10(ctx: RuleCtx) -> None:
 
 
 
+# ----------------------------------------------------------------------------
+# R11  call-site agreement on directory roles: all calls of one method pass the environment's directories in the same roles (K8)
+# ----------------------------------------------------------------------------
+ENVMOD = 'mesonbuild/environment.py'
+
+
+def _env_field(ctx: RuleCtx, mod: Module, cls: str, info: L.FnInfo, e: ast.AST, at: Node, depth: int = 0) -> T.Optional[str]:
+    """Canonical form of an expression that denotes a field of the Environment object: `self.environment.f`, `self.environment.get_f()` (getter that
+    returns self.f), a backend attribute assigned once in __init__ from such an expression, or a local bound to one.  None: something else."""
+    if depth > 4:
+        return None
+    e = L.strip_cast(e)
+    if isinstance(e, ast.Name):
+        rs = info.reaching(e.id, at)
+        if len(rs) == 1 and isinstance(rs[0], L.Def) and rs[0].kind == 'assign' and rs[0].value is not None:
+            return _env_field(ctx, mod, cls, info, rs[0].value, rs[0].node, depth + 1)
+        return None
+    c = attr_chain(e)
+    if c is not None:
+        parts = c.split('.')
+        if len(parts) == 3 and parts[0] == 'self' and parts[1] == 'environment':
+            return parts[2]
+        if len(parts) == 2 and parts[0] == 'self':
+            # an attribute of the backend: one assignment in an __init__ of the class hierarchy
+            memo = ctx.repo.__dict__.setdefault('_c04_envattr', {})
+            mk = (mod.rel, cls, c)
+            if mk in memo:
+                return memo[mk]
+            memo[mk] = None
+            found = None
+            for m2, c2 in ctx.repo.mro(mod, mod.cls(cls)):
+                init = next((f_ for f_ in c2.body if isinstance(f_, ast.FunctionDef) and f_.name == '__init__'), None)
+                if init is None:
+                    continue
+                # all stores to attributes of self in this class, indexed once
+                idx = ctx.repo.__dict__.setdefault('_c04_selfstores', {})
+                ck = (m2.rel, c2.name)
+                if ck not in idx:
+                    table: T.Dict[str, T.List[T.Tuple[bool, ast.AST]]] = {}
+                    for q_, f_ in m2.funcs().items():
+                        if not q_.startswith(c2.name + '.'):
+                            continue
+                        for st in walk_no_nested(f_):
+                            if isinstance(st, (ast.Assign, ast.AugAssign, ast.AnnAssign)):
+                                for t_ in (st.targets if isinstance(st, ast.Assign) else [st.target]):
+                                    ch = attr_chain(t_)
+                                    if ch and ch.startswith('self.') and ch.count('.') == 1:
+                                        table.setdefault(ch, []).append((f_ is init, st))
+                    idx[ck] = table
+                stores = [st for in_init, st in idx[ck].get(c, []) if in_init and isinstance(st, ast.Assign)]
+                others = [st for in_init, st in idx[ck].get(c, []) if not in_init or not isinstance(st, ast.Assign)]
+                if others or len(stores) > 1:
+                    return None
+                if len(stores) == 1:
+                    ii = L.FnInfo(m2, f'{c2.name}.__init__', init)
+                    ns = ii.cfg.stmt_nodes(stores[0])
+                    if not ns:
+                        return None
+                    found = _env_field(ctx, m2, c2.name, ii, stores[0].value, ns[0], depth + 1)
+                    break
+            memo[mk] = found
+            return found
+        return None
+    if isinstance(e, ast.Call) and not e.args and not e.keywords and isinstance(e.func, ast.Attribute) and attr_chain(e.func.value) == 'self.environment':
+        env = ctx.repo.module(ENVMOD)
+        q = f'Environment.{e.func.attr}'
+        if env.has_func(q):
+            body = [s_ for s_ in env.func(q).body if not (isinstance(s_, ast.Expr) and isinstance(s_.value, ast.Constant))]
+            if len(body) == 1 and isinstance(body[0], ast.Return) and body[0].value is not None:
+                rc = attr_chain(body[0].value)
+                if rc and rc.startswith('self.') and rc.count('.') == 1:
+                    return rc.split('.')[1]
+    return None
+
+
+def r11(ctx: RuleCtx) -> None:
+    groups: T.Dict[T.Tuple[str, int], T.List[T.Tuple[Module, str, ast.Call, T.Tuple[T.Tuple[int, str], ...]]]] = {}
+    cands: T.List[T.Tuple[Module, str, L.Infos, str, ast.Call, bool]] = []
+    for rel, cls in ((BK, 'Backend'), (NB, BACKEND)):
+        mod = ctx.repo.module(rel)
+        infos = _infos(ctx) if rel == NB else L.Infos(mod)
+        for q, f in mod.funcs().items():
+            if not q.startswith(cls + '.'):
+                continue
+            for c in _own_calls(f):
+                if not isinstance(c.func, ast.Attribute) or len(c.args) < 2 or c.keywords or any(isinstance(a, ast.Starred) for a in c.args):
+                    continue
+                simple = [a for a in c.args if isinstance(a, ast.Name) or attr_chain(a) is not None or
+                          (isinstance(a, ast.Call) and not a.args and not a.keywords and attr_chain(a.func) is not None)]
+                if len(simple) < 2:
+                    continue        # fewer than two arguments of a shape that can denote a field of the environment
+                direct = any(not isinstance(a, ast.Name) and (attr_chain(a) or attr_chain(a.func) or '').startswith('self.') for a in simple)  # type: ignore[union-attr]
+                cands.append((mod, cls, infos, q, c, direct))
+    # calls with an argument that is written as an attribute of self come first; calls through locals only are looked at for the methods found that way
+    names_seen: T.Set[T.Tuple[str, int]] = set()
+    for want_direct in (True, False):
+        for mod, cls, infos, q, c, direct in cands:
+            if direct != want_direct or (not direct and (c.func.attr, len(c.args)) not in names_seen):  # type: ignore[union-attr]
+                continue
+            if True:
+                info = infos.get(q)
+                nodes = info.nodes_of(c)
+                if not nodes:
+                    continue
+                roles = tuple((i, fld) for i, a in enumerate(c.args) for fld in [_env_field(ctx, mod, cls, info, a, nodes[0])] if fld is not None)
+                if len(roles) >= 2 and len({fld for _, fld in roles}) == len(roles):
+                    groups.setdefault((c.func.attr, len(c.args)), []).append((mod, q, c, roles))  # type: ignore[union-attr]
+                    names_seen.add((c.func.attr, len(c.args)))  # type: ignore[union-attr]
+    nsite = 0
+    for (meth, arity), sites in sorted(groups.items()):
+        if len(sites) < 3:
+            continue
+        nsite += len(sites)
+        count: T.Dict[T.Tuple[T.Tuple[int, str], ...], int] = {}
+        for _, _, _, roles in sites:
+            count[roles] = count.get(roles, 0) + 1
+        ref, nref = max(count.items(), key=lambda kv: kv[1])
+        if len(count) > 1 and nref * 3 < len(sites) * 2:
+            raise Undecided(f'calls of .{meth}(): the environment directories are passed in several arrangements {count}, none clearly the reference')
+        for mod, q, c, roles in sites:
+            same_positions = {i for i, _ in roles} == {i for i, _ in ref}
+            if roles != ref and not same_positions:
+                continue        # other arguments resolve here: not comparable with the reference arrangement
+            ctx.require(roles == ref, f'{q}: .{meth}() receives the environment directories as {dict(ref)}', mod, q, c,
+                        f'`{short(c, 110)}` passes the environment fields {dict(roles)} by position, while {nref} of the {len(sites)} call sites of .{meth}() pass {dict(ref)}: '
+                        'the same method cannot be right with both arrangements (source and build directory swapped)', c)
+    if nsite == 0:
+        raise Undecided('no method of the backends is called at three or more sites with two directories of the environment')
+    ctx.floor('call sites compared for the roles of the environment directories', nsite, 3)
+
+
+
+# ----------------------------------------------------------------------------
+# R12  a per-target file name that one function turns into a statement output is only handed out for target classes
+#      for which that function is called (producer / consumer class-guard agreement, K8)
+# ----------------------------------------------------------------------------
+def _class_constraints(ctx: RuleCtx, mod: Module, info: L.FnInfo, n: Node, var: str) -> T.List[T.Tuple[T.List[T.Tuple[Module, ast.ClassDef]], bool]]:
+    """isinstance facts about `var` that hold whenever node n is reached: [(classes, is-instance?)]."""
+    cfg = info.cfg
+    out: T.List[T.Tuple[T.List[T.Tuple[Module, ast.ClassDef]], bool]] = []
+    here = [d.node.id if isinstance(d, L.Def) else d for d in info.reaching(var, n)]
+    for t in cfg.nodes:
+        if t.kind != 'test' or t.id == n.id or not cfg.dominated_by_any(n, [t]):
+            continue
+        if [d.node.id if isinstance(d, L.Def) else d for d in info.reaching(var, t)] != here:
+            continue
+        yes = [cfg.nodes[b] for b, lab in cfg.succ[t.id] if lab is True]
+        no = [cfg.nodes[b] for b, lab in cfg.succ[t.id] if lab is False]
+        via_yes = n.id in cfg.reachable(yes, [t], include_start=True)
+        via_no = n.id in cfg.reachable(no, [t], include_start=True)
+        if via_yes == via_no:
+            continue
+        test = t.ast.test  # type: ignore[union-attr]
+        # on the true edge every conjunct of an `and` holds; on the false edge every disjunct of an `or` fails
+        if via_yes:
+            parts = test.values if isinstance(test, ast.BoolOp) and isinstance(test.op, ast.And) else [test]
+        else:
+            parts = test.values if isinstance(test, ast.BoolOp) and isinstance(test.op, ast.Or) else [test]
+        for p_ in parts:
+            it = _isinstance_test(L.inline_locals(info, p_, t)) or _isinstance_test(p_)
+            if it is None or it[0] != var:
+                continue
+            cls_: T.List[T.Tuple[Module, ast.ClassDef]] = []
+            for nm in it[1]:
+                rc = ctx.repo.resolve_class(mod, nm)
+                if rc is None:
+                    cls_ = []
+                    break
+                cls_.append(rc)
+            if cls_:
+                out.append((cls_, it[2] if via_yes else not it[2]))
+    return out
+
+
+def r12(ctx: RuleCtx) -> None:
+    repo = ctx.repo
+    mod = repo.module(NB)
+    bm = repo.module(BUILD)
+    infos = _infos(ctx)
+    funcs = _backend_funcs(mod)
+
+    def is_name_fn(meth: str) -> bool:
+        return mod.has_func(f'{BACKEND}.{meth}') or repo.find_method(mod, mod.cls(BACKEND), meth) is not None
+    # producers: P(param) builds a statement whose output is self.F(param)
+    prod: T.Dict[str, T.List[T.Tuple[str, str]]] = {}
+    for q, f in funcs.items():
+        ps = _param_names(f)
+        for c in _own_calls(f):
+            if not _is_ctor(c, ELEMENT):
+                continue
+            oe = _elem_args(mod, c).get('outfilenames')
+            if oe is None:
+                continue
+            info = infos.get(q)
+            ns = info.nodes_of(c)
+            if not ns:
+                continue
+            oi = L.inline_locals(info, oe, ns[0])
+            if isinstance(oi, ast.Call) and (call_name(oi) or '').startswith('self.') and (call_name(oi) or '').count('.') == 1 and len(oi.args) == 1 and not oi.keywords \
+                    and isinstance(oi.args[0], ast.Name) and oi.args[0].id in ps and not info.defs().get(oi.args[0].id) and is_name_fn(call_name(oi)[5:]):  # type: ignore[index]
+                prod.setdefault(call_name(oi)[5:], []).append((q, oi.args[0].id))  # type: ignore[index]
+    nchk = 0
+    domain = [(bm, c) for q_, c in bm.classes().items() if '.' not in q_]
+
+    def possible(k: T.Tuple[Module, ast.ClassDef], cons: T.List[T.Tuple[T.List[T.Tuple[Module, ast.ClassDef]], bool]]) -> bool:
+        mro = [x[1] for x in repo.mro(k[0], k[1])]
+        return all(any(c_[1] in mro for c_ in cl) == want for cl, want in cons)
+    for fname, ps_ in sorted(prod.items()):
+        if len({q for q, _ in ps_}) != 1:
+            continue            # several functions produce statements named by this function: no single producer to compare with
+        pq, pparam = ps_[0]
+        pmeth = pq.split('.')[-1]
+        pidx = _param_names(mod.func(pq)).index(pparam)
+        # every reference to the producer must be a plain call with a local as the target
+        psites: T.Optional[T.List[T.Tuple[str, ast.Call, str]]] = []
+        for q, f in funcs.items():
+            for x in walk_no_nested(f):
+                if isinstance(x, ast.Attribute) and x.attr == pmeth and attr_chain(x) == f'self.{pmeth}':
+                    par = mod.parent_map().get(x)
+                    if not (isinstance(par, ast.Call) and par.func is x):
+                        psites = None      # referenced as a value (dispatch table, callback): its call sites are not all visible
+                        break
+                    b = _bound(mod, par, pq)
+                    a = dict.get(b, _param_names(mod.func(pq))[pidx])
+                    if not isinstance(a, ast.Name):
+                        psites = None
+                        break
+                    psites.append((q, par, a.id))
+                if psites is None:
+                    break
+            if psites is None:
+                break
+        if psites is None:
+            ctx.note(f'{fname}(): the producer {pmeth}() is not only called with a plain local: its call sites are not all visible, not compared')
+            continue
+        if not psites:
+            continue
+        # single producer only if no other use of the name function can become the output of a statement elsewhere: it must not be handed
+        # (directly or through a local) to another method of the backend or to an element constructor outside the producer
+        leaks = False
+        pm_ = mod.parent_map()
+        for q, f in funcs.items():
+            if q == pq or q == f'{BACKEND}.{fname}':
+                continue
+            for c in _own_calls(f):
+                if call_name(c) != f'self.{fname}':
+                    continue
+                holders = [c]
+                par = pm_.get(c)
+                if isinstance(par, (ast.Assign, ast.AnnAssign)) and par.value is c:
+                    tg = par.targets[0] if isinstance(par, ast.Assign) else par.target
+                    if isinstance(tg, ast.Name):
+                        holders += [x for x in ast.walk(f) if isinstance(x, ast.Name) and x.id == tg.id and isinstance(x.ctx, ast.Load)]
+                    else:
+                        leaks = True
+                for h in holders:
+                    hp = pm_.get(h)
+                    hc = hp if isinstance(hp, ast.Call) and h in hp.args else (pm_.get(hp) if isinstance(hp, ast.keyword) else None)
+                    if isinstance(hc, ast.Call) and (_is_ctor(hc, ELEMENT) or ((call_name(hc) or '').startswith('self.') and (call_name(hc) or '').count('.') == 1)):
+                        leaks = True
+        if leaks:
+            ctx.note(f'{fname}(): its result is also handed to other backend methods / element constructors: no single producer, not compared')
+            continue
+        pcons = []
+        for q, c, v in psites:
+            info = infos.get(q)
+            ns = info.nodes_of(c)
+            if not ns:
+                continue
+            pcons.append(_class_constraints(ctx, mod, info, ns[0], v))
+        # consumers: other uses of the name function on a local
+        for q, f in funcs.items():
+            if q == pq or q == f'{BACKEND}.{fname}':
+                continue
+            for c in _own_calls(f):
+                if call_name(c) != f'self.{fname}' or len(c.args) != 1 or c.keywords or not isinstance(c.args[0], ast.Name):
+                    continue
+                info = infos.get(q)
+                ns = info.nodes_of(c)
+                if not ns:
+                    continue
+                ccons = _class_constraints(ctx, mod, info, ns[0], c.args[0].id)
+                if not any(w for _, w in ccons):
+                    ctx.note(f'{q}: `{short(c, 50)}` is not under a positive isinstance test: classes of the value unknown, not compared')
+                    continue
+                nchk += 1
+                missing = [k[1].name for k in domain if possible(k, ccons) and not any(possible(k, pc) for pc in pcons)]
+                ctx.require(not missing, f'{q}: {fname}() is handed out only for classes for which {pmeth}() is called', mod, q, c,
+                            f'`{short(c, 60)}` hands out the file name for a {"/".join(missing)}, but {pmeth}(), the only function that writes a statement producing that file, is '
+                            f'never called for such a target ({len(psites)} call site(s) examined): the name appears as an input that no statement produces', c)
+    if nchk == 0:
+        raise Undecided('no per-target file name with a single producing function and a class-guarded consumer was found')
+    ctx.floor('class-guarded consumers of a produced per-target file name', nchk, 1)
+
+
+
 def _resolve_callee(mod: Module, fi: L.FnInfo, c: ast.Call, at: Node) -> T.Optional[T.Tuple[str, ast.Call, bool]]:
     """Repository function a call goes to: a module function, a method of the element class (`self.m`, `Cls.m`), or a local bound to
     functools.partial(f, ...) (the partial's arguments are merged into the call).  -> (qualified name, call with merged arguments, implicit first parameter)"""
@@ -2753,4 +3052,6 @@ RULES = [
     Rule('C04.R8', 'every separator of the build line is escaped or rejected by the path quoting', r8),
     Rule('C04.R9', 'no isinstance arm for a subclass is shadowed by an earlier base-class arm', r9),
     Rule('C04.R10', 'a pool named by a rule is declared under an implied condition', r10),
+    Rule('C04.R11', 'all call sites of a method pass the environment directories in the same roles', r11),
+    Rule('C04.R12', 'a produced per-target file name is handed out only for classes whose producer is called', r12),
 ]
